@@ -190,6 +190,8 @@ type Gen struct {
 	BigBatch float64 // probability that an insert is a batch of >= 11 values
 	Nested   bool    // documents: allow nested container values
 	Tagged   bool    // values are unique string tags only (C04)
+	Exotic   float64 // probability that a value is a Go-native exotic value (GoVal)
+	NilField bool    // exotic structs may carry nil slice / map / pointer fields
 }
 
 // NewGen returns a generator with the default conflict-dense shaping.
@@ -204,6 +206,9 @@ func (g *Gen) Tag() string { g.tag++; return "t" + strconv.Itoa(g.tag) }
 func (g *Gen) Prim() interface{} {
 	if g.Tagged {
 		return g.Tag()
+	}
+	if g.Exotic > 0 && g.R.Float64() < g.Exotic {
+		return g.GoVal(g.NilField)
 	}
 	switch g.R.Intn(8) {
 	case 0:
@@ -383,4 +388,127 @@ func (g *Gen) Idle(typ string) []Op {
 		return []Op{{Kind: "put", Key: "idle", Val: "x"}, {Kind: "rm", Key: "idle"}}
 	}
 	return nil
+}
+
+// ---- generator V: Go-native values of every shape the public API accepts
+
+// TaggedStruct is a flat struct with json tags.
+type TaggedStruct struct {
+	A int     `json:"a"`
+	B string  `json:"b"`
+	C float64 `json:"c"`
+	D bool    `json:"d"`
+}
+
+// PlainStruct is a flat struct without json tags.
+type PlainStruct struct {
+	X int32
+	Y string
+}
+
+// SliceStruct carries container fields (S may be nil).
+type SliceStruct struct {
+	N string         `json:"n"`
+	S []int          `json:"s"`
+	M map[string]int `json:"m"`
+}
+
+// NestedStruct nests a struct and a pointer.
+type NestedStruct struct {
+	In  TaggedStruct `json:"in"`
+	Ptr *int         `json:"ptr"`
+	L   []string     `json:"l"`
+}
+
+var hostileStrings = []string{"", "\x00", "a/b", "~", "~0", "~1", "a.b", "$x", " ", "𝄞𝄞", "日本語", " lead", "quote\"q", "back\\slash", "ü", "tab\tx", "nl\nx"}
+
+// Str returns a valid-UTF-8 string from the hostile pool or a long one.
+func (g *Gen) Str() string {
+	switch g.R.Intn(6) {
+	case 0:
+		b := make([]byte, 200+g.R.Intn(300))
+		for i := range b {
+			b[i] = byte('a' + g.R.Intn(26))
+		}
+		return string(b)
+	case 1:
+		return g.Tag()
+	}
+	return hostileStrings[g.R.Intn(len(hostileStrings))] + g.Tag()
+}
+
+// GoVal returns a Go-native value (typed numerics, pointers, structs, typed containers).
+// withNilFields allows struct fields holding nil slices / maps / pointers.
+func (g *Gen) GoVal(withNilFields bool) interface{} {
+	r := g.R
+	i64s := []int64{0, 1, -1, 127, -128, 255, 32767, 65535, 1 << 31, -(1 << 31), 1<<53 - 1, 1 << 53, 1<<53 + 1, -(1 << 53), 1<<62 + 12345, -1 << 63, 1<<63 - 1}
+	n := i64s[r.Intn(len(i64s))]
+	switch r.Intn(24) {
+	case 0:
+		return int(n)
+	case 1:
+		return int8(n)
+	case 2:
+		return int16(n)
+	case 3:
+		return int32(n)
+	case 4:
+		return n
+	case 5:
+		return uint8(n)
+	case 6:
+		return uint32(n)
+	case 7:
+		return uint64(n)
+	case 8:
+		fs := []float32{0.1, 1.5, 3.4e38, -2.25, 1e-7, 16777217}
+		return fs[r.Intn(len(fs))]
+	case 9:
+		fs := []float64{0.1, 1e21, 1e-7, -0.0, 123456789.123456789, 5e-324, 1.7976931348623157e308}
+		return fs[r.Intn(len(fs))]
+	case 10:
+		v := int(n)
+		return &v
+	case 11:
+		v := g.Str()
+		return &v
+	case 12:
+		v := r.Intn(2) == 0
+		return &v
+	case 13:
+		v := float32(0.1)
+		return &v
+	case 14:
+		return TaggedStruct{A: int(n % 1000), B: g.Str(), C: 0.25, D: true}
+	case 15:
+		return PlainStruct{X: int32(n), Y: g.Tag()}
+	case 16:
+		s := SliceStruct{N: g.Tag(), S: []int{1, 2}, M: map[string]int{"a": 1}}
+		if withNilFields && r.Intn(2) == 0 {
+			s.S = nil
+		}
+		if withNilFields && r.Intn(2) == 0 {
+			s.M = nil
+		}
+		return s
+	case 17:
+		v := 7
+		ns := NestedStruct{In: TaggedStruct{A: 1, B: g.Tag()}, Ptr: &v, L: []string{g.Tag()}}
+		if withNilFields && r.Intn(2) == 0 {
+			ns.Ptr = nil
+		}
+		return ns
+	case 18:
+		return []int{int(n % 100), 2, 3}
+	case 19:
+		return []string{g.Tag(), g.Str()}
+	case 20:
+		return map[string]int{"a": int(n % 100), "b": 2}
+	case 21:
+		return map[string]string{"x": g.Tag()}
+	case 22:
+		return &TaggedStruct{A: 5, B: g.Tag()}
+	default:
+		return g.Str()
+	}
 }
